@@ -195,7 +195,9 @@ Step(st, ev, RowOf(_)) ==
                    ELSE LET r == RowOf(st.row) IN QDiv(QMul(QMul(r.interval, QI(60)), st.glp), r.glp)
          IN  [st |-> [st EXCEPT !.row = ev.row, !.reward = QAdd(@, rw), !.n = @ + 1], out |-> "ok",
               res |-> [NoRes EXCEPT !.ret = rw]]
-    [] ev.op = "buy" ->
+    [] ev.op \in {"buy", "sell"} /\ ev.tok \notin Tokens ->       \* a token the pool data has no columns for: rejected
+         [st |-> [st EXCEPT !.n = @ + 1], out |-> "reject", res |-> NoRes]
+    [] ev.op = "buy" /\ ev.tok \in Tokens ->
          LET row == RowOf(st.row)
              m   == MintSim(row, ev.tok, ev.amt)
              ws  == WalletSub(st.w[ev.tok], ev.amt)
@@ -205,7 +207,7 @@ Step(st, ev, RowOf(_)) ==
              THEN [st |-> [st EXCEPT !.w[ev.tok] = ws.bal, !.glp = QAdd(@, m.glp), !.n = @ + 1], out |-> "ok", res |-> res]
              ELSE [st |-> [st EXCEPT !.glp = IF DEV_MutateBeforeDebit THEN QAdd(@, m.glp) ELSE @, !.n = @ + 1],
                    out |-> "reject", res |-> NoRes]
-    [] ev.op = "sell" ->
+    [] ev.op = "sell" /\ ev.tok \in Tokens ->
          LET row == RowOf(st.row)
              g   == IF ev.all THEN st.glp ELSE ev.amt
          IN  IF QGt(g, st.glp) /\ ~DEV_OverRedeem
@@ -214,6 +216,22 @@ Step(st, ev, RowOf(_)) ==
                   IN  [st |-> [st EXCEPT !.w[ev.tok] = QAdd(@, r.out), !.glp = QSub(@, g), !.n = @ + 1], out |-> "ok",
                        res |-> [ret |-> r.out, fee |-> r.fee, feeVault |-> r.feeVault, usdg |-> r.usdg, band |-> r.band, branch |-> r.branch,
                                 rt |-> Zero]]
+
+(* account views (C01 / C03): the wallet valued at the bar's USD prices plus the market's net value; the GMX markets quote in
+   USD, an account quoted in another token (here weth) converts both legs by the USD price in that token                        *)
+UsdPrice(row, t) == QDiv(row.price[t], E(30))
+WalletValueUsd(st, row) == QAdd(QAdd(QMul(st.w["weth"], UsdPrice(row, "weth")), QMul(st.w["usdc"], UsdPrice(row, "usdc"))),
+                                QAdd(QMul(st.w["wavax"], UsdPrice(row, "wavax")), QMul(st.w["mim"], UsdPrice(row, "mim"))))
+AccountUsd(st, row) == QAdd(WalletValueUsd(st, row), NetValue(st, row))
+AccountView(st, row) ==
+  LET a  == WalletValueUsd(st, row)
+      m  == NetValue(st, row)
+      pw == UsdPrice(row, "weth")
+  IN  [usd  |-> [asset |-> a, market |-> m, net |-> QAdd(a, m)],
+       weth |-> [asset |-> QDiv(a, pw), market |-> QDiv(m, pw), net |-> QDiv(QAdd(a, m), pw)]]
+
+(* C03: the wallet rounding dust a call may gain: 1e-5 of each wallet balance it debits *)
+DustAllowUsd(st, ev, row) == IF ev.op = "buy" /\ ev.tok \in Tokens THEN QMul(Dust, QMul(st.w[ev.tok], UsdPrice(row, ev.tok))) ELSE Zero
 
 (* action records (BuyGlpAction / SellGlpAction) of an accepted event, as functions of event and result:
      buy : [type |-> "gmx_buy_glp",  token |-> tok, token_amount |-> amt,        mint_amount |-> ret * 10^18]
